@@ -919,6 +919,21 @@ func Serialize(m interface{ ToBytes() ([]byte, error) }) (b []byte, err error, p
 	return
 }
 
+// SerializeKeep is Serialize that also returns the very slice ToBytes handed out (not a copy), so that a caller can
+// see whether a later serialization of the same object writes into it.
+func SerializeKeep(m interface{ ToBytes() ([]byte, error) }) (handedOut, b []byte, err error, panicked string) {
+	defer func() {
+		if p := recover(); p != nil {
+			panicked = fmt.Sprint(p)
+		}
+	}()
+	handedOut, err = m.ToBytes()
+	if handedOut != nil {
+		b = append([]byte(nil), handedOut...)
+	}
+	return
+}
+
 // StripFraming removes the three leading framing fields and the trailing
 // CheckSum field when they carry the expected tags; ok=false otherwise.
 func StripFraming(ft fixref.FramingTags, fs []fixref.Field) ([]fixref.Field, bool) {
